@@ -49,6 +49,8 @@ def pipeline(ctx, monitor, family, scenarios, opt='', consts='', drift_fn=None, 
     jobs = []
     for fam, scs, o in groups:
         k = max(1, min(NCPU, len(scs) // 20 + 1))
+        if fam == 'alias':
+            k = len(scs)            # one process per scenario: a race report belongs to exactly one scenario
         for i in range(k):
             part = scs[i::k]
             if part:
@@ -99,7 +101,8 @@ def pipeline(ctx, monitor, family, scenarios, opt='', consts='', drift_fn=None, 
         cov['drift'] = drift
     if extra_cov:
         cov.update(extra_cov)
-    return finish(ctx, family, monitor, by_sid, viols, events, cov, list(ASSUME_COMMON) + list(assumptions), opt=opt, consts=consts)
+    return finish(ctx, family, monitor, by_sid, viols, events, cov, list(ASSUME_COMMON) + list(assumptions), opt=opt, consts=consts, binary=binary,
+                  retries=5 if family == 'alias' else 1)
 
 
 # ------------------------------------------------------------------ muxer family: C01, C04, C05, C17
@@ -672,6 +675,24 @@ def run_c09(ctx):
                      'whole faulted unit; an error or nothing otherwise (DESIGN.md 7)', 'CRC-32 detects every burst of <= 32 bits, so the enumerated fault classes have no probabilistic escape'])
 
 
+def run_c16(ctx):
+    build_harness(ctx)
+    race = build_harness(ctx, race=True)
+    quick = ctx.tier == 'quick'
+    model_check(ctx, 'MC_Pool', 'Pool_ideal.cfg')
+    scs = []
+    for i in range(16 if quick else 160):
+        scs.append({'sid': 'alias-%d' % i, 'kind': 'alias', 'seed': ctx.seed * 101 + i, 'streams': [1, 2, 3, 5][i % 4], 'conc': [2, 4, 8, 16, 32, 64][i % 6]})
+    return pipeline(
+        ctx, 'Mon_C16', 'alias', scs, binary=race,
+        rule='scenario = (seed, number of interleaved demuxers 1..5, number of concurrent workers 2..64); sequential part: every Packet / DemuxerData '
+             'returned by seeded random streams gets a handle, its digest is re-taken after each of the next 8 results and at the end, its byte ranges '
+             'are compared with the pool items used in the call and the read buffer; muxer payload digests before/after 30 WriteData calls; '
+             'concurrent part: each worker (demux a stream, mux a history) alone and with all workers at once, built with -race',
+        assumptions=['"without data races" is observed by the Go race detector (a runtime observer, not TLA+); its report count is judged by the monitor',
+                     'aliasing is judged at return time against the pool items used during that call and the instance\'s read buffer (live objects only)'])
+
+
 PROPS = {
     'C01': lambda ctx: run_mux_family(ctx, 'C01'),
     'C04': lambda ctx: run_mux_family(ctx, 'C04'),
@@ -692,4 +713,5 @@ PROPS = {
     'C14': run_c14,
     'C13': run_c13,
     'C09': run_c09,
+    'C16': run_c16,
 }
